@@ -16,6 +16,7 @@ package main
 import (
 	"fmt"
 	"os"
+	"time"
 
 	c "verifharness/common"
 )
@@ -754,6 +755,13 @@ func main() {
 		return
 	}
 	r := o.Rng
+	t0 := time.Now()
+	lap := func(what string) {
+		if os.Getenv("C02_TIMING") != "" {
+			fmt.Fprintf(os.Stderr, "%s: %v\n", what, time.Since(t0))
+		}
+		t0 = time.Now()
+	}
 	// all interleavings of two limiter-then-response programs, one and two levels
 	one := Cfg{Rows: []QRow{{Max: 1, TTLSec: 1, GCSec: hugeGC, Parent: -1}}}
 	two := Cfg{Rows: []QRow{{Max: 2, TTLSec: 2, GCSec: hugeGC, Parent: -1}, {Max: 1, TTLSec: 1, GCSec: hugeGC, Parent: 0}}}
@@ -771,14 +779,18 @@ func main() {
 	if o.Thorough() {
 		genExhaustive(o, two, [][]Op{prog(0, 1, "dec"), prog(1, 1, "drop"), prog(2, 0, "dec")}, "all-interleavings-3")
 	}
+	lap("exhaustive")
 	for i := 0; i < o.Scale(500, 9000, 4000); i++ {
 		genTxnHistory(o, r)
 	}
+	lap("transactions")
 	for i := 0; i < o.Scale(300, 5000, 2500); i++ {
 		genOpSoup(o, r)
 	}
+	lap("op-soup")
 	for i := 0; i < o.Scale(150, 2500, 1000); i++ {
 		genEngHistory(o, r)
 	}
+	lap("engine")
 	o.Finish()
 }
